@@ -28,6 +28,16 @@ fn acc_sig(a: &Utf8Accum) -> u64 {
         c.push_byte(b).map(|s| s.as_bytes().to_vec()).hash(&mut h);
         canon_acc(&c).hash(&mut h);
     }
+    // two-byte probes: every kind of lead byte followed by second octets around the range boundaries
+    // (state that only matters for the *next* sequence shows here)
+    for lead in [0xC2u8, 0xDF, 0xE0, 0xE1, 0xED, 0xEF, 0xF0, 0xF1, 0xF4] {
+        for second in [0x80u8, 0x8F, 0x90, 0x9F, 0xA0, 0xBF] {
+            let mut c = a.clone();
+            let _ = c.push_byte(lead);
+            c.push_byte(second).map(|s| s.as_bytes().to_vec()).hash(&mut h);
+            canon_acc(&c).hash(&mut h);
+        }
+    }
     h.finish()
 }
 
@@ -147,12 +157,35 @@ fn canon_gen(g: &InputGenerator) -> (u8, u8, [u8; 4], u8, u8) {
 fn gen_sig(g: &InputGenerator) -> u64 {
     use std::hash::{Hash, Hasher};
     let mut h = std::collections::hash_map::DefaultHasher::new();
+    let feed = |c: &mut InputGenerator, b: u8, h: &mut std::collections::hash_map::DefaultHasher| match c.accept(b) {
+        Some(Input::Char(s)) => (1u8, s.as_bytes().to_vec()).hash(h),
+        Some(Input::Control(k)) => (2u8, ctl_name(k).as_bytes().to_vec()).hash(h),
+        None => 0u8.hash(h),
+    };
     for b in boundary_bytes() {
         let mut c = g.clone();
-        match c.accept(b) {
-            Some(Input::Char(s)) => (1u8, s.as_bytes().to_vec()).hash(&mut h),
-            Some(Input::Control(k)) => (2u8, ctl_name(k).as_bytes().to_vec()).hash(&mut h),
-            None => 0u8.hash(&mut h),
+        feed(&mut c, b, &mut h);
+        canon_gen(&c).hash(&mut h);
+    }
+    // whole units: first/last scalar of every encoded length, both terminators, an arrow
+    let units: [&[u8]; 12] = [
+        "\u{80}".as_bytes(),
+        "\u{7ff}".as_bytes(),
+        "\u{800}".as_bytes(),
+        "\u{d7ff}".as_bytes(),
+        "\u{ffff}".as_bytes(),
+        "\u{10000}".as_bytes(),
+        "\u{10ffff}".as_bytes(),
+        "é".as_bytes(),
+        b"\r",
+        b"\n",
+        b"\x1b[A",
+        b"[",
+    ];
+    for u in units {
+        let mut c = g.clone();
+        for b in u {
+            feed(&mut c, *b, &mut h);
         }
         canon_gen(&c).hash(&mut h);
     }
